@@ -199,3 +199,30 @@ Proof.
     + intros i Hn. rewrite rsj_nth, Hn. reflexivity.
   - intros st _. apply Ri_refl.
 Qed.
+
+(* the per-run boolean implies the hypotheses of the partial theorem *)
+Lemma seqj_walk_sound Lc' : forall l b0, seqj_walk Lc' b0 l = true ->
+  forall k a b, nth_error l k = Some a -> nth_error l (S k) = Some b -> jump_to_next a b = true ->
+    flags_not_in Lc' (S (b0 + k)) = true.
+Proof.
+  induction l as [|x t IH]; intros b0 H k a b Ha Hb Hj; [destruct k; discriminate|].
+  cbn [seqj_walk] in H. destruct t as [|y t']; [destruct k; cbn in Hb; [discriminate|destruct k; discriminate]|].
+  apply andb_true_iff in H. destruct H as [H1 H2].
+  destruct k as [|k]; cbn in Ha, Hb.
+  - injection Ha as <-. injection Hb as <-. rewrite Hj in H1. cbn in H1. rewrite Nat.add_0_r. exact H1.
+  - rewrite <- Nat.add_succ_comm. eapply IH; eassumption.
+Qed.
+
+Theorem seqj_side_ok_sound ops : seqj_side_ok ops = true -> lock_equiv ops (remove_sequential_jumps ops).
+Proof.
+  unfold seqj_side_ok. destruct (liveness defs_c FUEL (remove_sequential_jumps ops)) as [Lc'|]; [|discriminate].
+  unfold seqj_side_with. intros H.
+  apply andb_true_iff in H. destruct H as [Hp H]. apply andb_true_iff in H. destruct H as [Hw H].
+  apply andb_true_iff in H. destruct H as [Hnd Hwalk].
+  apply remove_sequential_jumps_preserves_partial; [exact Hw | exact Hnd |].
+  intros i a b Ha Hb Hj c Hc Hlive.
+  pose proof (seqj_walk_sound Lc' ops 0%nat Hwalk i a b Ha Hb Hj) as Hf. cbn [Nat.add] in Hf.
+  pose proof (postfix_sound _ _ _ Hp _ _ Hlive) as Hin. apply PS.mem_spec in Hin.
+  unfold flags_not_in in Hf. apply andb_true_iff in Hf. destruct Hf as [F1 F2].
+  apply negb_true_iff in F1, F2. destruct Hc as [<-|[<-|[]]]; congruence.
+Qed.
